@@ -39,7 +39,7 @@ func c07AliasGadget(api frontend.API, in []frontend.Variable) []frontend.Variabl
 	s1 := g.Add(x, x)
 	s2 := g.Sub(x, x)
 	s3 := g.MulAdd(x, gl.NewVariable(5), x)
-	keep := g.Mul(x, y) // x must still be x here
+	keep := g.Mul(x, y)             // x must still be x here
 	tt := g.MulAddNoReduce(t, y, u) // an expression with spare capacity
 	r1 := g.MulAddNoReduce(x, y, tt)
 	r2 := g.MulAddNoReduce(u, v, tt)
